@@ -318,6 +318,7 @@ class VerdictSched:
                     return
                 left = deadline - time.time()
                 if left <= 0:
+                    self.release_all()  # the run goes on unscheduled: no stub may stay held
                     self.broken = f"gate {e}{p} waited {GATE_TIMEOUT_S:.0f}s at position {self.k} ({self.ev[self.k] if self.k < len(self.ev) else 'end'})"
                     self.cv.notify_all()
                     return
@@ -368,6 +369,16 @@ class VerdictSched:
                 self.handled.add(kk)
                 e, p, x = self.ev[kk]
             base = f"{p}.refined.smt2" if e == "F2" else f"{p}.smt2"
+            if e in ("F", "F2"):
+                # the solver process whose end is scheduled was never started (e.g. the query was answered from the unsat
+                # core cache although the model says it reaches the solver): give the schedule up at once
+                started = [x2 for e2, p2, x2 in self.obs if e2 == ("B" if e == "F" else "R") and p2 == p]
+                if started and started[-1] != "run":
+                    with self.cv:
+                        self.broken = f"the model schedules the end of the solver process for {self.fn}/{base}, but the code did not start one ({started[-1]})"
+                        self.cv.notify_all()
+                    self.release_all()
+                    return
             natural = x in ("killed", "killed-raise", "timeout")  # ends by itself (killed by halmos / times out)
             if x != "timeout":
                 # also for "killed": cancel() does nothing for a process that is not yet started (halmos' known
@@ -377,9 +388,11 @@ class VerdictSched:
             if e == "SF":
                 continue  # the main thread reports the return of the confirmation query
             if not natural:
-                deadline = time.time() + GATE_TIMEOUT_S
+                # (with a real solver timeout configured a stub that has not answered by then has been killed by halmos)
+                deadline = time.time() + (15.0 if self.scn.has_kind("timeout") else GATE_TIMEOUT_S)
                 while not self._journal_has_reply(base):
                     if time.time() > deadline or self.stopped:
+                        self.release_all()
                         with self.cv:
                             self.broken = self.broken or f"no reply of the stub for {self.fn}/{base} within {GATE_TIMEOUT_S:.0f}s"
                             self.cv.notify_all()
@@ -457,6 +470,7 @@ def verdict_instrumented():
             return real["run_test"](ctx)
         _State.exec_fn[id(ctx.solving_ctx.executor)] = fn
         _State.current = sc
+        _TL.sll_raised = False
         sc.start()
         sc.t0 = time.time()
         try:
@@ -479,6 +493,10 @@ def verdict_instrumented():
         # (a done-callback added to a future that has already finished runs in the adding thread: the is_shutdown() of
         # _get_solver_output may then be called by the main thread - that is not the loop head)
         in_callback = getattr(_TL, "cb_sched", None) is not None
+        if getattr(_TL, "sll_raised", False):
+            # the `except Exception: if not executor.is_shutdown(): raise` around the confirmation query (since e7511fd)
+            _TL.sll_raised = False
+            return real["is_shutdown"](self)
         if sc is not None and not in_callback and threading.current_thread() is main_thread and _State.exec_fn.get(id(self)) == sc.fn:
             p = sc.npaths
             sc.npaths += 1
@@ -507,9 +525,11 @@ def verdict_instrumented():
         sc.arm_checks.append((p, "stuck"))
         sc.enter("K", p)
         _TL.cur = (sc, "K", p)
+        _TL.sll_raised = False
         try:
             out = real["m_sll"](path_ctx)
         except BaseException as e:  # noqa: BLE001
+            _TL.sll_raised = True
             if getattr(_TL, "cur", None):
                 _pending_leave(f"raise:{type(e).__name__}")  # raised before submit
             elif ("K", p, "run") in sc.obs:
@@ -670,10 +690,10 @@ def verdict_mutated_run_test(kind: str):
             raise MachineryError("run_test's verdict table does not have the expected shape (stuck, unknown, normal)")
         new = src[:a] + src[b:c] + src[a:b] + src[c:]
     elif kind == "no-catch":
-        old = "            except ShutdownError:\n                # early exit was triggered while this path was being confirmed"
+        old = "            except Exception:\n                # early exit was triggered while this path was being confirmed"
         if old not in src:
-            raise MachineryError("run_test does not catch ShutdownError around the confirmation query as expected")
-        new = src.replace(old, "            except ZeroDivisionError:\n                # (mutant: ShutdownError not caught)", 1)
+            raise MachineryError("run_test does not catch the exceptions of the confirmation query as expected")
+        new = src.replace(old, "            except ZeroDivisionError:\n                # (mutant: nothing caught)", 1)
     else:
         raise MachineryError(f"unknown run_test mutation {kind}")
     new = new.replace("def run_test(", "def run_test__verdict_mutant(", 1)
@@ -866,6 +886,13 @@ def verdict_compare(s: VScn, o: dict, mutate: str | None = None) -> list:
     if o["exitcode"] is None:
         return [("machinery", f"no TestResult for {o['fn']}")]
     if o["broken"]:
+        # the run went on unscheduled: what it showed is still a real behaviour of halmos for this assignment.  Without a
+        # wall-clock solver timeout in play its verdict must be the required one (a violation is reported, not hidden)
+        code = o["exitcode"]
+        if mutate is None and not s.has_kind("timeout") and CLASS_OF[code] not in verdict_acceptable(s.arms):
+            return [("property", f"verdict {CLASS_OF[code]} (exit code {code}), required {verdict_required(s.arms)} "
+                                 f"[the run left the model's schedule: {o['broken']}]"),
+                    ("conformance", f"schedule not enforced: {o['broken']}")]
         return [("machinery", f"schedule not enforced: {o['broken']}")]
     # arms are explored in order
     exp_arms = [(p, a["o"]) for p, a in enumerate(s.arms) if a["o"] in VIOL + ("stuck",)]
@@ -881,9 +908,18 @@ def verdict_compare(s: VScn, o: dict, mutate: str | None = None) -> list:
         late = [q for q in o["calls"] if kinds.get(q) not in ("timeout", "spawnfail", "none", None) and q not in o["replied"]]
         if late:
             return [("machinery", f"stub for {late} did not answer within the solver timeout (load)")]
+        # ... or answered just too late: an `unknown` that the scripted replies do not explain
+        n_model = sum(1 for _, r, _ in s.outputs if r == "unknown")
+        n_obs = sum(1 for _, r, _ in (tuple(x) for x in o["outputs"]) if r == "unknown")
+        sf_spurious = any(e == "SF" and x == "unknown" and s.arms[p]["r"] not in ("unknown", "timeout")
+                          for e, p, x in (tuple(x) for x in o["events"]) if 0 <= p < len(s.arms))
+        if n_obs > n_model or sf_spurious:
+            return [("machinery", "a solver reply arrived after the configured solver timeout (load): unexplained `unknown`")]
     code = o["exitcode"]
-    lenient = s.killed_stuck()  # a killed confirmation query surfaces either way (not forced)
-    model_codes = {s.code} | ({1, 5} if lenient else set())
+    # a confirmation query cancelled in flight ends with an err output (path kept, loop goes on) or with an exception
+    # (loop left): which one is not forced, so only the exit code - the same in both cases - is compared
+    lenient = s.killed_stuck()
+    model_codes = {s.code}
     if code not in model_codes:
         issues.append(("conformance", f"exit code {code}, the model says {sorted(model_codes)}"))
     if not lenient:
